@@ -422,6 +422,49 @@ def keys_and_prefixes(ctx):
                     st.violation("C06/key-network/own-network-refused-or-wrong/" + sp, case, got, exp_addr[fname])
                 if not should and got is not None:
                     st.violation("C06/key-network/foreign-network-accepted/" + sp, case, got, "refused")
+    # ---- every address helper x every network: the string is the reference encoding for THAT network, and reads back to it
+    import hashlib as _hl
+    from btclib.script.script_pub_key import ScriptPubKey
+    script = b"\x51\x21" + K + b"\x51\xae"
+    for net in NETS:
+        if net not in NETINFO:
+            continue
+        pkh_v, sh_v, hrp, main = NETINFO[net]
+        wsh_prog = _hl.sha256(script).digest()
+        helpers = {
+            "b32.p2tr": (lambda: b32.p2tr(K[1:], net), A.segwit_encode(hrp, 1, K[1:]), b"\x51\x20" + K[1:]),
+            "b32.p2wsh": (lambda: b32.p2wsh(script, net), A.segwit_encode(hrp, 0, wsh_prog), b"\x00\x20" + wsh_prog),
+            "b32.p2wpkh": (lambda: b32.p2wpkh(K, net), A.segwit_encode(hrp, 0, h), b"\x00\x14" + h),
+            "b32.address_from_witness-v1": (lambda: b32.address_from_witness(1, K[1:], net), A.segwit_encode(hrp, 1, K[1:]), None),
+            "b32.address_from_witness-v16": (lambda: b32.address_from_witness(16, bytes(2), net), A.segwit_encode(hrp, 16, bytes(2)), None),
+            "b58.p2pkh": (lambda: b58.p2pkh(K, net), A.b58check_encode(bytes([pkh_v]) + h), b"\x76\xa9\x14" + h + b"\x88\xac"),
+            "b58.p2sh": (lambda: b58.p2sh(script, net), A.b58check_encode(bytes([sh_v]) + B32.h160(script)), b"\xa9\x14" + B32.h160(script) + b"\x87"),
+            "b58.p2wpkh_p2sh": (lambda: b58.p2wpkh_p2sh(K, net), A.b58check_encode(bytes([sh_v]) + B32.h160(b"\x00\x14" + h)), None),
+            "b58.p2wsh_p2sh": (lambda: b58.p2wsh_p2sh(script, net), A.b58check_encode(bytes([sh_v]) + B32.h160(b"\x00\x20" + wsh_prog)), None),
+            "b58.address_from_h160-p2pkh": (lambda: b58.address_from_h160("p2pkh", h, net), A.b58check_encode(bytes([pkh_v]) + h), None),
+            "b58.address_from_h160-p2sh": (lambda: b58.address_from_h160("p2sh", h, net), A.b58check_encode(bytes([sh_v]) + h), None),
+        }
+        for nm, (f, exp, spk) in helpers.items():
+            st.evals += 1
+            st.nontrivial += 1
+            case = {"helper": nm, "network": net}
+            try:
+                got = f()
+            except errs as e:
+                got = "refused " + repr(e)[:60]
+            if got != exp:
+                st.violation("C06/helper-network/address-differs-from-reference/" + nm, case, got, exp)
+                continue
+            if spk is not None:
+                try:
+                    back = ScriptPubKey.from_address(got)
+                    same_type = (NETWORKS[back.network].network_type == "main") == main
+                    if back.script != spk or not same_type:
+                        st.violation("C06/helper-network/reads-back-differently/" + nm, case, (back.script.hex()[:20], back.network), (spk.hex()[:20], net))
+                    if ScriptPubKey(spk, net).address != got:
+                        st.violation("C06/helper-network/differs-from-ScriptPubKey.address/" + nm, case, ScriptPubKey(spk, net).address, got)
+                except errs as e:
+                    st.violation("C06/helper-network/own-address-refused/" + nm, case, repr(e)[:80], "script")
     seed = bytes(range(16))
     for v in sorted(XPRV_VERSIONS_ALL):
         st.evals += 1
